@@ -26,6 +26,9 @@ def main(argv=None):
     a = ap.parse_args(argv)
     if a.cmd == "check":
         seed = int(os.environ.get("VERIF_SEED", "0") or 0)
+        if a.jobs is not None or os.environ.get("SYMX_REPO", "/repo") != "/repo":
+            # a partial run, or a run against another tree (seed testing): its evidence does not describe the registered check on /repo
+            os.environ["SYMX_EVIDENCE_DIR"] = os.path.join(os.path.dirname(os.path.dirname(os.path.abspath(__file__))), ".scratch-evidence")
         mod = importlib.import_module("checks." + a.prop.lower())
         t0 = time.time()
         code = mod.run(a.tier, seed, only=a.jobs, nproc=a.nproc)
